@@ -36,6 +36,8 @@ type xmitRec struct {
 	MID   uint32
 	B, E  bool
 	FSN   uint32
+	Data  string
+	Typ   uint8
 }
 
 type wireFacts struct {
@@ -92,6 +94,14 @@ func runWireMonitors(m *Sim, x *Exec, o monOpts) *wireFacts {
 			mtu[i] = int(m.Cfg[i].MTU)
 		}
 	}
+	var tsnWindow [2]uint32
+	for i := 0; i < 2; i++ {
+		rb := m.Cfg[i].RecvBuf
+		if rb == 0 {
+			rb = initialRecvBufSize
+		}
+		tsnWindow[i] = getMaxTSNOffset(rb)
+	}
 	// state for M-cksum: zcKnown[x] = peer of x advertised ZC and that advert was delivered to x
 	var zcKnown [2]bool
 	if o.Snap {
@@ -100,6 +110,7 @@ func runWireMonitors(m *Sim, x *Exec, o monOpts) *wireFacts {
 	}
 	// M-sack state per receiver y
 	type rstate struct {
+		mustReport map[uint32]bool // delivered while certainly inside the TSN window
 		delivered map[uint32]bool
 		fwdPoint  uint32
 		haveFwd   bool
@@ -111,7 +122,7 @@ func runWireMonitors(m *Sim, x *Exec, o monOpts) *wireFacts {
 	}
 	var rs [2]*rstate
 	for i := range rs {
-		rs[i] = &rstate{delivered: map[uint32]bool{}}
+		rs[i] = &rstate{delivered: map[uint32]bool{}, mustReport: map[uint32]bool{}}
 	}
 	// M-flow state per sender x
 	type sstate struct {
@@ -167,7 +178,7 @@ func runWireMonitors(m *Sim, x *Exec, o monOpts) *wireFacts {
 					rec := f.Xmit[snd][c.TSN]
 					first := rec == nil
 					if first {
-						rec = &xmitRec{Len: len(c.Data), SID: c.SID, U: c.U, PPI: c.PPI, SSN: c.SSN, MID: c.MID, B: c.B, E: c.E, FSN: c.FSN}
+						rec = &xmitRec{Len: len(c.Data), SID: c.SID, U: c.U, PPI: c.PPI, SSN: c.SSN, MID: c.MID, B: c.B, E: c.E, FSN: c.FSN, Data: string(c.Data), Typ: c.Typ}
 						f.Xmit[snd][c.TSN] = rec
 						f.XmitOrder[snd] = append(f.XmitOrder[snd], c.TSN)
 					}
@@ -198,7 +209,7 @@ func runWireMonitors(m *Sim, x *Exec, o monOpts) *wireFacts {
 					f.Sacks[snd] = append(f.Sacks[snd], c)
 					if o.Sack {
 						r := rs[snd]
-						monSack(m, snd, c, r.delivered, r.haveFwd, r.fwdPoint, r.haveBase, r.base, r.haveCum, r.lastCum, o.SackComplete && !r.shutdownSeen)
+						monSack(m, snd, c, r.delivered, r.mustReport, r.haveFwd, r.fwdPoint, r.haveBase, r.base, r.haveCum, r.lastCum, o.SackComplete && !r.shutdownSeen)
 						r.lastCum, r.haveCum = c.CumAck, true
 					}
 				case wFWDTSN, wIFWDTSN:
@@ -251,6 +262,15 @@ func runWireMonitors(m *Sim, x *Exec, o monOpts) *wireFacts {
 				case wDATA, wIDATA:
 					r := rs[rcv]
 					r.delivered[c.TSN] = true
+					// certainly acceptable: within the TSN window of the last cumulative point the
+					// receiver itself announced (its real point can only be further ahead)
+					ref, okRef := r.base, r.haveBase
+					if r.haveCum {
+						ref = r.lastCum
+					}
+					if okRef && c.TSN-ref <= tsnWindow[rcv] {
+						r.mustReport[c.TSN] = true
+					}
 				case wFWDTSN, wIFWDTSN:
 					r := rs[rcv]
 					if !r.haveFwd || sna32lt(r.fwdPoint, c.NewCum) {
@@ -289,7 +309,7 @@ func runWireMonitors(m *Sim, x *Exec, o monOpts) *wireFacts {
 	return f
 }
 
-func monSack(m *Sim, y int, c *wChunk, delivered map[uint32]bool, haveFwd bool, fwdPoint uint32, haveBase bool, base uint32,
+func monSack(m *Sim, y int, c *wChunk, delivered, mustReport map[uint32]bool, haveFwd bool, fwdPoint uint32, haveBase bool, base uint32,
 	haveCum bool, lastCum uint32, complete bool) {
 	if haveCum && sna32lt(c.CumAck, lastCum) {
 		m.Failf("sack.monotone", "endpoint %d: SACK cum %d after cum %d (moved backwards)", y, c.CumAck, lastCum)
@@ -324,7 +344,7 @@ func monSack(m *Sim, y int, c *wChunk, delivered map[uint32]bool, haveFwd bool, 
 		}
 	}
 	if complete {
-		for tsn := range delivered {
+		for tsn := range mustReport {
 			if sna32lt(c.CumAck, tsn) && !inGap[tsn] && !(haveFwd && sna32lte(tsn, fwdPoint)) {
 				m.Failf("sack.complete", "endpoint %d: TSN %d was delivered but the next SACK (cum %d gaps %v) does not report it", y, tsn, c.CumAck, c.Gaps)
 				break
@@ -493,6 +513,9 @@ func checkInvariants(m *Sim, a *Association, who string) {
 }
 
 func (m *Sim) invariantsAll() {
+	if !m.InvOn {
+		return
+	}
 	for i, a := range m.As {
 		checkInvariants(m, a, fmt.Sprintf("ep%d", i))
 	}
